@@ -5,6 +5,10 @@ the same type Mathlib calls `ℚ`, so the driver can run it and the proofs can u
 * `updateNext`  = `PeriodicCallback._update_next` (exact arithmetic; `rnd` is the value `random.random()` returned)
 * `M`, `step`   = the `_run / _schedule_next / start / stop` machine on a one-thread event loop:
                   pending loop timers, the handle `self._timeout`, callback invocations in flight.
+                  `fire` = the timer handle fires and the body of `_run` starts with nothing in between;
+                  `iter` = the same loop iteration shared with a foreign callback (`Act`s: `stop()`, `start()`, a
+                  blocking pause) that runs before the handle, or in the window between the handle firing and the
+                  body of the `async def _run` starting (where only `_run`'s re-check of `_running` makes `stop()` effective).
 -/
 namespace TornadoModel.C39
 
@@ -61,12 +65,26 @@ inductive Kind
   | coro      -- returns an awaitable that stays pending until a `complete` op
   deriving Repr, DecidableEq
 
+/-- what a *foreign* loop callback that shares a loop iteration with the periodic timer does to the PeriodicCallback
+(a `call_later(T, pc.stop)` landing on the grid, a second overdue timer after the loop was blocked, …) -/
+inductive Act
+  | stop
+  | start
+  | block (d : Rat)                 -- the foreign callback takes `d` seconds (the clock moves)
+  deriving Repr, DecidableEq
+
 inductive Op
   | start
   | stop
   | sleep (d : Rat)                 -- the clock moves by `d ≥ 0`; nothing else happens (loop busy / idle)
   | fire                            -- the loop fires its earliest pending timer (clock jumps forward if needed)
   | complete (idx : Nat) (ok : Bool) -- the awaitable of the `idx`-th invocation in flight resolves / fails
+  /-- one loop iteration, `late` seconds after the deadline of the earliest pending timer (or now, if that is later),
+  that the periodic timer shares with a foreign callback doing `acts`: `before = true` — the foreign callback is ordered
+  before the periodic timer's handle (earlier deadline, or the same deadline and popped first), so a `stop` in it still
+  cancels the handle; `before = false` — it runs after the handle has fired (the `_run` coroutine exists, its task has
+  not started: `_run` is `async`, its body starts on the next iteration) and before the body of `_run` starts. -/
+  | iter (late : Rat) (before : Bool) (acts : List Act)
   deriving Repr, DecidableEq
 
 inductive Ev
@@ -125,6 +143,49 @@ def runCb (m : M) : M × List Ev :=
       (m', [.started inv m.now, .finished inv m.now, .logged inv] ++ evs)
     | .coro => ({ m with inflight := m.inflight ++ [inv] }, [.started inv m.now])
 
+/-- `start()` / `stop()` / a blocking pause, called from a foreign callback: the same code as the ops `start`, `stop`,
+`sleep` of `step` below (`actStep_eq`) -/
+def actStep (m : M) : Act → M × List Ev
+  | .start =>
+    let m := { m with running := true, pc := { m.pc with next := m.now } }
+    scheduleNext m
+  | .stop =>
+    let m := { m with running := false }
+    match m.handle with
+    | some h => ({ m with timers := m.timers.filter (fun t => t.1 != h), handle := none }, [])
+    | none => (m, [])
+  | .block d => ({ m with now := m.now + d }, [])
+
+def actsRun (m : M) : List Act → M × List Ev
+  | [] => (m, [])
+  | a :: as =>
+    let (m1, e1) := actStep m a
+    let (m2, e2) := actsRun m1 as
+    (m2, e1 ++ e2)
+
+/-- "stopped" after the calls a foreign callback made (the last `stop()` / `start()` decides) -/
+def actsStopped : Bool → List Act → Bool
+  | s, [] => s
+  | _, .stop :: as => actsStopped true as
+  | _, .start :: as => actsStopped false as
+  | s, .block _ :: as => actsStopped s as
+
+/-- the shared loop iteration of `Op.iter` once the clock is set; `tid` = the periodic timer's handle -/
+def iterBody (m : M) (tid : Nat) (before : Bool) (acts : List Act) : M × List Ev :=
+  if before then
+    -- the foreign callback first; the timer handle runs only if it has not been cancelled meanwhile
+    let r := actsRun m acts
+    if r.1.timers.any (fun u => u.1 == tid) then
+      let r2 := runCb { r.1 with timers := r.1.timers.filter (fun u => u.1 != tid) }
+      (r2.1, r.2 ++ r2.2)
+    else r
+  else
+    -- the handle fires (it is spent: `remove_timeout` on it is a no-op), then the foreign callback, then the body
+    -- of `_run` starts — with its re-check of `_running`
+    let r := actsRun { m with timers := m.timers.filter (fun u => u.1 != tid) } acts
+    let r2 := runCb r.1
+    (r2.1, r.2 ++ r2.2)
+
 def step (m : M) : Op → M × List Ev
   | .start =>
     let m := { m with running := true, pc := { m.pc with next := m.now } }
@@ -148,6 +209,11 @@ def step (m : M) : Op → M × List Ev
       let m := { m with inflight := m.inflight.eraseIdx idx }
       let (m', evs) := scheduleNext m
       (m', [.finished inv m.now] ++ (if ok then [] else [.logged inv]) ++ evs)
+  | .iter late before acts =>
+    match earliest m.timers with
+    | none => actsRun m acts          -- no periodic timer pending: the foreign callback runs on its own
+    | some t =>
+      iterBody { m with now := if m.now < t.2 + late then t.2 + late else m.now } t.1 before acts
 
 def run (m : M) : List Op → M × List (List Ev)
   | [] => (m, [])
